@@ -457,6 +457,34 @@ def op_multi_combine_split(rng, chinfo, dtype):
     return case
 
 
+def op_combine_given_pipes(rng, chinfo, dtype):
+    """combine_legs with a pipe supplied by the caller - made for this tensor, for its conjugate (opposite orientation: the documented
+    behaviour is to conjugate the pipe), or for a tensor with other labels; the result must be what the automatic pipe gives"""
+    import tenpy.linalg.np_conserved as npc
+    rank = int(rng.integers(2, 5))
+    legs = _legs(rng, chinfo, rank, max_size=2)
+    labels = _labels(rank, 'g')
+    a = gen.random_array(rng, legs, dtype, labels=labels)
+    axes = [int(x) for x in rng.permutation(rank)[:2]]
+    qc = int(rng.choice([1, -1]))
+    pipe = a.make_pipe(axes, qconj=qc)
+    variant = ['same', 'pipe-of-the-conjugate', 'conjugated-pipe'][int(rng.integers(0, 3))]
+    if variant == 'same':
+        x, given, qc_res = a, pipe, qc
+    elif variant == 'pipe-of-the-conjugate':
+        x, given, qc_res = gen.note_operand(a.conj()), pipe, -qc          # pipe oriented opposite to the legs of x
+    else:
+        x, given, qc_res = a, pipe.conj(), qc                             # a.legs are opposite to the legs of the given pipe
+    r = x.combine_legs([axes], pipes=[given])
+    ref = x.combine_legs([axes], qconj=qc_res)                           # automatic pipe with the orientation the result must have
+    c = Case(f'combine_legs(pipes=[{variant}])', [x], r, ref.to_ndarray(), ref.get_leg_labels(), x.qtotal.copy())
+    pl = [l for l in r.legs if hasattr(l, 'legs')]
+    if len(pl) != 1 or pl[0].qconj != qc_res or any(pa.qconj != xa.qconj for pa, xa in zip(pl[0].legs, [x.legs[i] for i in axes])):
+        c.note = 'pipe orientation'
+        c.expected = None
+    return c
+
+
 def op_gauge_total_charge(rng, chinfo, dtype):
     """move total charge into a leg (optionally flipping its direction): same entries, new qtotal, consistent charges"""
     rk = int(rng.integers(1, 4))
@@ -594,7 +622,7 @@ def op_nothing_to_do(rng, chinfo, dtype):
     return c
 
 
-OPS = [op_chain, op_nothing_to_do, op_multi_combine_split, op_gauge_total_charge, op_misc_elementwise, op_add_leg_eye_block, op_grid_outer, op_tensordot, op_outer, op_inner, op_trace, op_transpose, op_conj, op_lincomb, op_combine_split, op_take_slice,
+OPS = [op_chain, op_nothing_to_do, op_multi_combine_split, op_combine_given_pipes, op_gauge_total_charge, op_misc_elementwise, op_add_leg_eye_block, op_grid_outer, op_tensordot, op_outer, op_inner, op_trace, op_transpose, op_conj, op_lincomb, op_combine_split, op_take_slice,
        op_getitem, op_getitem_oob, op_setitem, op_slice_getitem, op_setitem_slices, op_concatenate, op_scale_axis, op_permute,
        op_sort_legcharge, op_squeeze_addleg, op_norm, op_binary_scalar]
 
